@@ -159,6 +159,8 @@ def run(ctx, chk, tier="quick"):
     )
     chk.assumptions = ["SpecificYield.integrate is the integral of the specific yield (C14)",
                        "identifier suffixes state units"]
+    from .. import sqltypes
+    sqltypes.check(ctx, chk, "C17.O3", modules=("simulate_rise",), views=("average_rising_depth",))
     f = ctx.func("simulate_rise.compute_rise_curve")
     p = f.params
     facts, probs = simfacts.extract(ctx, f, p[1], p[2])
